@@ -269,6 +269,21 @@ fn run_prop(prop: &'static str, thorough: bool) -> Part {
                 part.violations.push((v, p));
             }
         }
+        if matches!(prop, "C02" | "C03" | "C04" | "C05" | "C09") && part.violations.is_empty() {
+            let t = Instant::now();
+            let big = single::big_runs(prop, seed());
+            part.stats.evaluations += big.runs;
+            part.stats.executions += big.runs;
+            for h in &big.hashes {
+                part.stats.nontrivial.insert(*h);
+            }
+            part.engines.push(json!({"engine": "big runs: chain / fan-out / fan-in / ternary tree of more than 1024 functions, six API x order x limit combinations each, pseudo-random schedule", "runs": big.runs, "max_n": big.max_n, "samples": big.samples, "wall_s": t.elapsed().as_secs_f64()}));
+            if let Some((v, case)) = big.violation {
+                let f = Failure { check: format!("big-runs:{prop}"), violation: v.clone(), tapes: vec![], decoded: json!({"kind": "single", "intr_build": INTR, "case": case}) };
+                let p = write_replay(prop, &f);
+                part.violations.push((v, p));
+            }
+        }
         let check = SingleCheck::new(prop, thorough);
         part.add_search(prop, &check, cases, workers, &known);
         if prop == "C05" && !INTR {
